@@ -222,6 +222,7 @@ def facts : Facts := {
   scratchPooledAndCleared := true
   rollbackOnFailedBuild := true
   buildProtocol := true
+  typeNodeCacheKeyed := true
   unknownIndexProtocol := true
   decodeInputWriteSites := 0
   decodeInputWriteSiteList := []
